@@ -48,6 +48,9 @@ pub enum BEv {
     /// set_data_retention_count to the data length the host noted after one of its own earlier allocations
     /// (only ever raising the count): a retention point that is not "everything so far"
     RetainMark(usize),
+    /// the host replaces the current input value in place (`*get_current_value_mut() = address of a new value`),
+    /// in both worlds: from here on `$` is that value
+    SetCurrent(Val),
 }
 
 #[derive(Clone, Debug, Serialize, Deserialize)]
@@ -277,6 +280,14 @@ impl Campaign for C19 {
         if rng.chance(1, 10) {
             compact_in_resolve(&mut script);
         }
+        // (last draws as well) the host replaces the current input value in place at a few step boundaries
+        if rng.chance(1, 6) {
+            for _ in 0..rng.range(1, 3) {
+                let k = rng.below(boundaries.len().min(40));
+                let at = rng.below(boundaries[k].len() + 1);
+                boundaries[k].insert(at, BEv::SetCurrent(random_value(rng, 1)));
+            }
+        }
         Sc19 { knobs, programs, retained, run_program, input, script, pre, boundaries, tail_every, max_steps: 1500 }
     }
 
@@ -403,6 +414,19 @@ impl Campaign for C19 {
             tail_every: 0,
             max_steps: 100,
         },
+        // D29 (fixed): the retention point moves after the input was pushed, then the host replaces `$` in place
+        Sc19 {
+            knobs: Knobs::default(),
+            programs: vec!["1, $, $, $".to_string()],
+            retained: 1,
+            run_program: 0,
+            input: Val::Int(5),
+            script: HostScript::default(),
+            pre: vec![],
+            boundaries: { let mut b = vec![vec![]; 6]; b[0] = vec![BEv::RetainAll]; b[1] = vec![BEv::HostAdd(Val::text("garbage")), BEv::SetCurrent(Val::Int(77))]; b[2] = vec![BEv::Optimize(vec![])]; b },
+            tail_every: 0,
+            max_steps: 100,
+        },
         // D20: a reapply loop running across a retention point, compacted afterwards
         Sc19 {
             knobs: Knobs::default(),
@@ -430,6 +454,7 @@ impl Campaign for C19 {
                     BEv::HostSymbol(_) => " host_symbol",
                     BEv::RetainAll => " retain_all",
                     BEv::RetainMark(_) => " retain_mark",
+                    BEv::SetCurrent(_) => " set_current",
                 });
             }
         }
@@ -648,6 +673,28 @@ pub fn execute(sc: &Sc19) -> Outcome {
                             marks.push(a.get_data_len());
                         }
                         Err(_) => {
+                            out.count("f1_store_full_fired", 1);
+                            break 'run;
+                        }
+                    }
+                }
+                BEv::SetCurrent(v) => {
+                    if !started || ended || a.get_current_value().is_none() || b.get_current_value().is_none() {
+                        continue;
+                    }
+                    sh.str("set-current");
+                    match (materialise(&mut a, &v), materialise(&mut b, &v)) {
+                        (Ok(x), Ok(y)) => {
+                            if let Some(slot) = a.get_current_value_mut() {
+                                *slot = x;
+                            }
+                            if let Some(slot) = b.get_current_value_mut() {
+                                *slot = y;
+                            }
+                            out.count("host_set_current_value", 1);
+                            out.probe("host-rewrote-the-current-value-in-place");
+                        }
+                        _ => {
                             out.count("f1_store_full_fired", 1);
                             break 'run;
                         }
